@@ -84,6 +84,10 @@ def run(prop, tier):
             sized[tag] = o3
             o2 = os.path.join(wd, "f_" + tag)
             C.run_driver(exe, "loaddump", len(paths), o2, args=["--list", lst, "--resave", "1"], env_extra=env)
+            if tag == "asan_fill_be":
+                RL = C.parse_out(o2)
+                viols += [v for v in RL.viol if v["prop"] in ("*", "C14")]      # purity of saving a LOADED object (1-D strings, byte parameters, events)
+                stats["loaded_objects_saved_with_snapshot_equality_checked"] = sum(1 for c_, l in RL.lines.get("RES", []) if " ok " in l)
             outs[tag] = (outs[tag][0], o2)
         ref_tag = runs[0][0]
         for kind, pat, n in (("history", "final_%d.c3d", nh), ("loaded_file", "resave_%d.c3d", len(paths))):
